@@ -431,6 +431,32 @@ def check_logic_order(run):
                         run.fail({"subcheck": "order:logic-transitive"}, {"a": str(a), "b": str(b), "c": str(c)},
                                  "%s <= %s <= %s but not %s <= %s" % (a, b, c, a, c))
     run.cls("logic-pairs", len(logics) ** 2)
+    # the quantified version of a logic ("closest supported logic" of the same theory with quantifiers): a supported,
+    # quantified logic at least as expressive - or no logic at all
+    from pysmt.exceptions import NoLogicAvailableError
+    for a in logics:
+        run.case(key=("quantified-version", str(a)), nontrivial=a.quantifier_free)
+        run.cls("quantified-version")
+        try:
+            q = a.get_quantified_version()
+        except NoLogicAvailableError:
+            run.cls("quantified-version:none-available")
+            continue
+        bad = None
+        if q.quantifier_free:
+            bad = "is quantifier-free"
+        elif not a <= q:
+            bad = "is not at least as expressive"
+        elif q not in L.PYSMT_LOGICS and a.quantifier_free:
+            bad = "is not a supported logic"
+        else:
+            target = L.Logic(name="", description="", quantifier_free=False, theory=a.theory)
+            between = [x for x in L.PYSMT_LOGICS if target <= x and x <= q and not q <= x]
+            if between and a.quantifier_free:
+                bad = "is not the closest one (%s is in between)" % between[0]
+        if bad:
+            run.fail({"subcheck": "selection:quantified-version"}, {"a": str(a)},
+                     "%s.get_quantified_version() = %s, which %s" % (a, q, bad))
 
 
 # ---------------------------------------------------------------- selection
